@@ -11,7 +11,7 @@ use proptest::prelude::*;
 use serde::{Deserialize, Serialize};
 use std::collections::BTreeMap;
 
-pub const RULE: &str = "(D0) every protected name (14 keywords / inputs / constants and every name of get_built_in_function_idents()) x 11 binding forms (plain, output, nested in parentheses / list / record / operator chain / conditional, function value; and inside a lambda body or do-block): the top-level forms must fail, and in all forms what typeof / to_string / field access observe of the name at top level, and the set of root names, must be unchanged. (D1) every sequence up to length 4 (thorough: 5 over a 25-template core) over an alphabet of statement templates on names a, b: bind, rebind, copy, nested assignment `a = (b = 5) + 1`, self-nested `a = (a = 1) + 1`, list-nested, partially failing `[a = 1, nope]`, `output a`, `output a = 1`, do-block shadowing / nested assignment inside a do-block / do-block returning a closure, functions whose parameters reuse a / b, calls, closures over a, assignment inside a lambda body (with parameters; anonymous without parameters, with and without captured names), failing statements, attempts to bind keywords, inputs, constants and built-in names; each statement is evaluated like a REPL line and compared with a bind-once reference model (success / failure, the whole root environment, values). (D2) random sessions of 5-40 generated statements with rebinding attempts and failing statements, checked with history invariants: snapshot monotonicity, no insert into the root environment for a key it holds (hook H2), reserved names never bound, root names are a subset of the names assigned in top-level position. Non-trivial = the history contains a (re)binding attempt on an already bound or reserved name, or a shadowing scope; distinct by the statement sequence.";
+pub const RULE: &str = "(D0) every protected name (16 keywords / inputs / constants / inf / infinity and every name of get_built_in_function_idents()) x 11 binding forms (plain, output, nested in parentheses / list / record / operator chain / conditional, function value; and inside a lambda body or do-block): the top-level forms must fail, and in all forms what typeof / to_string / field access observe of the name at top level, and the set of root names, must be unchanged. (D1) every sequence up to length 4 (thorough: 5 over a 25-template core) over an alphabet of statement templates on names a, b: bind, rebind, copy, nested assignment `a = (b = 5) + 1`, self-nested `a = (a = 1) + 1`, list-nested, partially failing `[a = 1, nope]`, `output a`, `output a = 1`, do-block shadowing / nested assignment inside a do-block / do-block returning a closure, functions whose parameters reuse a / b, calls, closures over a, assignment inside a lambda body (with parameters; anonymous without parameters, with and without captured names), failing statements, attempts to bind keywords, inputs, constants and built-in names; each statement is evaluated like a REPL line and compared with a bind-once reference model (success / failure, the whole root environment, values). (D2) random sessions of 5-40 generated statements with rebinding attempts and failing statements, checked with history invariants: snapshot monotonicity, no insert into the root environment for a key it holds (hook H2), reserved names never bound, root names are a subset of the names assigned in top-level position. Non-trivial = the history contains a (re)binding attempt on an already bound or reserved name, or a shadowing scope; distinct by the statement sequence.";
 pub const ASSUMPTIONS: &[&str] = &[
     "hook H2 (thread-local log of Environment::insert) is a monitor only; with the feature off the code is unchanged",
     "a statement that fails half-way may keep the bindings its already-evaluated inner assignments made (the statement only requires that bound names never change)",
@@ -531,7 +531,7 @@ fn session_case(tape: &[u16]) -> Case {
 pub fn run(ctx: &mut Ctx) {
     let thorough = ctx.tier == crate::engine::Tier::Thorough;
     // D0: every protected name x every binding form
-    let mut protected: Vec<String> = ["if", "then", "else", "true", "false", "null", "and", "or", "not", "do", "return", "output", "inputs", "constants"].iter().map(|s| s.to_string()).collect();
+    let mut protected: Vec<String> = ["if", "then", "else", "true", "false", "null", "and", "or", "not", "do", "return", "output", "inputs", "constants", "inf", "infinity"].iter().map(|s| s.to_string()).collect();
     let mut builtins: Vec<String> = blots_core::functions::get_built_in_function_idents().iter().map(|s| s.to_string()).collect();
     builtins.sort();
     protected.extend(builtins);
